@@ -2,7 +2,7 @@ CONSTANTS
   Top = "A"
   CaOf <- SecondSlots
   ShadowRebuilt = TRUE
-  Sub = {"B", "C", "D", "C2", "D2"}
+  Sub = {"B", "C", "D", "C2", "D2", "F"}
   Res = {"p1", "p2", "p3", "a1", "a2"}
   TopRes = {"p1", "p2", "a1"}
   Roa <- TraceRoa
